@@ -15,15 +15,15 @@ ASSUMPTIONS = [
     "markdown-it-py's token stream is the independent reading of both the original and the fixed text",
     "documents on which fix ends in an error are skipped (C07/C15), counted; unchanged files compare trivially (counted separately)",
 ]
-LIMIT = {"Z1": 15291, "Z3": 24000, "Z4": 12000}
+LIMIT = {"Z1": 15291, "Z3": 16000, "Z4": 8000, "Z7": 40000}
 
 
 def universe_hash():
-    return U.content_hash()
+    return PL.hash_ab()
 
 
 def plan(tier, seed, complete=False):
-    items, zinfo = PL.plan_docs(tier, seed, complete, quick={"Z1": 2500, "Z3": 2000, "Z4": 1000}, z1_all=False, limit=LIMIT, zones=("Z1", "Z3", "Z4"))
+    items, zinfo = PL.plan_docs(tier, seed, complete, quick={"Z1": 1800, "Z3": 1200, "Z4": 600, "Z7": 2400}, z1_all=False, limit=LIMIT, zones=("Z1", "Z3", "Z4", "Z7"), force_b=True)
     return {
         "items": items, "zones": zinfo, "exhaustive": False,
         "rule": "documents of the frozen universes x {default rules, one index-chosen fix-capable rule alone}; non-trivial/distinct = "
